@@ -87,13 +87,13 @@ REG = {
         "partial": "string encodings rest on the element parsers (data of the model); the full grid of families x encodings x null patterns is explored by the family runner on the real code",
     },
     "C09": {
-        "modules": ["VProofs.Props.C09", "VProofs.Props.NumpyMore", "VProofs.Props.Shapes", "VProofs.Props.NumpyTotalProps"],
+        "modules": ["VProofs.Props.C09", "VProofs.Props.NumpyMore", "VProofs.Props.Shapes", "VProofs.Props.NumpyTotalProps", "VProofs.Props.PyListRel"],
         "theorems": thms("C09", ["C09_total", "C09_contains_total_pandas", "C09_generic_catch_all",
                                  "C09_detect_total_pandas", "C09_total_guards", "C09_total_xforms", "C09_witness_F29",
                                  "C09_infer_total_pandas", "C09_hypotheses_executable"])
                     + ["V.Pd.infer_total", "V.Pd.guardsOk_of_outCol", "V.Pd.outputs_good", "V.traverse_total_inv",
                        "V.NumpyProps.C09_contains_total_numpy", "V.NumpyProps.C09_generic_numpy", "V.NumpyProps.C09_guards_total_numpy",
-                       "V.Np.guardsOkNB_sound", "V.Np.guardsOk_terminal", "V.Np.terminal_of_lands", "V.Np.infer_total_np", "V.NumpyProps.infer_numpy_complete"] + ["V.Shapes.shapes_match"],
+                       "V.Np.guardsOkNB_sound", "V.Np.guardsOk_terminal", "V.Np.terminal_of_lands", "V.Np.infer_total_np", "V.NumpyProps.infer_numpy_complete", "V.PyProps.C09_tests_total_list"] + ["V.Shapes.shapes_match"],
         "runners": ["pandas", "numpy", "list", "exotic", "api"],
         "relevant": ["contains", "guard", "xform-outcome", "infer-outcome", "detect-outcome", "relation-missing"],
     },
@@ -110,7 +110,8 @@ REG = {
                                  "C11_detect_repeat_pandas", "C11_infer_pandas"])
                     + ["V.Pd.guard_accBag", "V.Pd.xform_equiBag", "V.Pd.infer_bag", "V.PyProps.C11_membership_list", "V.PyProps.C11_detect_list",
                        "V.NumpyProps.isString_iff", "V.NumpyProps.C11_membership_numpy", "V.Np.guard_accBagN", "V.Np.xform_equiBagN",
-                       "V.Np.infer_bag_np", "V.NumpyProps.C11_detect_numpy", "V.NumpyProps.C11_infer_numpy"] + ["V.Shapes.shapes_match"],
+                       "V.Np.infer_bag_np", "V.NumpyProps.C11_detect_numpy", "V.NumpyProps.C11_infer_numpy",
+                       "V.Np.guard_repeat", "V.Np.xform_repeat", "V.Np.containsB_repeat_np", "V.NumpyProps.C11_detect_repeat_numpy", "V.NumpyProps.C11_infer_repeat_numpy"] + ["V.Shapes.shapes_match"],
         "runners": ["bag", "pandas", "numpy", "list"],
         "relevant": ["contains", "detect", "guard", "infer-path"],
         "partial": "k-fold repetition is proved for membership and detect_type only (infer_type under repetition, and the numpy / list back ends, are explored by the bag and sequence runners); DtBag (pd.to_datetime parses element by element) is a hypothesis",
